@@ -3724,11 +3724,12 @@ def d_pathstop( ctx ):
     # ---- the function as a whole, by value: its body is run on request paths against a stand-in symbol table holding the tags 'a', 'a.b'
     #      ( a tag whose dotted name extends another tag's ) and 'd.e'.  The address returned is the addressed tag's: the LONGEST dotted name
     #      that adjacent symbolic segments spell wins ( 'a.b' is not 'a' plus an unknown member ), an element in between ends the name
-    sym = { 'a': { 'class': 2, 'instance': 1, 'attribute': 1 }, 'a.b': { 'class': 2, 'instance': 1, 'attribute': 2 }, 'd.e': { 'class': 3, 'instance': 1, 'attribute': 1 } }
+    sym = { 'a': { 'class': 2, 'instance': 1, 'attribute': 1 }, 'a.b': { 'class': 2, 'instance': 1, 'attribute': 2 }, 'd.e': { 'class': 3, 'instance': 1, 'attribute': 1 },
+            'x': { 'class': 4, 'instance': 1, 'attribute': 1 }, 'x.y.z': { 'class': 4, 'instance': 1, 'attribute': 3 } }
     body_ = [ st for st in fn.body if not ( isinstance( st, ast.Expr ) and isinstance( st.value, ast.Constant )) ]
     def whole( segs, mode ):
         env = { fn.args.args[0].arg: { 'segment': [ dict( s_ ) for s_ in segs ] }, ATT: mode, 'symbol': { k_: dict( v_ ) for k_, v_ in sym.items() }, 'canonicalize_tag': lambda t: t.lower(),
-                'dict': dict, 'isinstance': isinstance, 'int': int, 'dict.fromkeys': dict.fromkeys }
+                'dict': dict, 'isinstance': isinstance, 'int': int, 'dict.fromkeys': dict.fromkeys, 'any': any, 'all': all }
         try:
             out = run_block( body_, env, ignore_calls=( 'log', ))
         except NoFold as exc:
@@ -3740,7 +3741,8 @@ def d_pathstop( ctx ):
               ( [ S( 'D' ) ], True, 'raise' ), ( [ { 'class': 5 }, { 'instance': 1 }, { 'attribute': 3 }, { 'element': 4 } ], True, ( 5, 1, 3 )),
               ( [ S( 'A' ), { 'attribute': 99 } ], True, 'raise' ), ( [ S( 'A' ), { 'attribute': 1 }, { 'element': 4 } ], True, ( 2, 1, 1 )),
               ( [ { 'class': 5 }, { 'instance': 1 } ], False, ( 5, 1, None )), ( [ { 'class': 5 }, { 'instance': 1 }, { 'element': 0 } ], 1, ( 5, 1, 1 )),
-              ( [ { 'class': 5 } ], False, 'raise' ), ( [ S( 'A' ), S( 'B' ) ], False, ( 2, 1, None )))
+              ( [ { 'class': 5 } ], False, 'raise' ), ( [ S( 'A' ), S( 'B' ) ], False, ( 2, 1, None )),
+              ( [ S( 'X' ), S( 'Y' ), S( 'Z' ) ], True, ( 4, 1, 3 )), ( [ S( 'X' ), S( 'Y' ) ], True, 'raise' ), ( [ S( 'X' ) ], True, ( 4, 1, 1 )), ( [ S( 'X' ), S( 'Y' ), S( 'Z' ), { 'element': 2 } ], True, ( 4, 1, 3 )))
     wrong = []
     for segs, mode, want in table:
         got = whole( segs, mode )
@@ -3749,7 +3751,7 @@ def d_pathstop( ctx ):
             wrong.append(( segs, mode, got, want ))
     if wrong:
         segs, mode, got, want = wrong[0]
-        res.bad( src, fn, 'resolve( %s, attribute=%r ) with tags a, a.b, d.e -> %r, specified %r ( %d of %d paths differ )' % ( [ list( s_.items())[0] for s_ in segs ], mode, got, want, len( wrong ), len( table )),
+        res.bad( src, fn, 'resolve( %s, attribute=%r ) with tags a, a.b, d.e, x, x.y.z -> %r, specified %r ( %d of %d paths differ )' % ( [ list( s_.items())[0] for s_ in segs ], mode, got, want, len( wrong ), len( table )),
                  'a configured tag whose dotted name begins with the name of another tag cannot be addressed ( every request for it is answered 0x05 ), or a request is served from another tag than the one its path names' )
     else:
         res.ok( src, fn, 'resolve returns the address of the tag ( or object ) the path names on all %d sample paths ( longest dotted name, elements, defaults, contradictions )' % len( table ))
